@@ -70,24 +70,32 @@ SidOf(side, dir, i) == 4 * i + 2 * dir + (IF side = 1 THEN 0 ELSE 1)
 Key(c, sid, w) == (7 + 31 * sid + 101 * c + 13 * w) % 251
 EpOf(c, s) == IF s = 0 THEN 0 ELSE c + 1
 
+\* 0-RTT: streams a client opened before its handshake completed are discarded when the server rejects early data
+Rejected0(cs) == m.cfg.ticket /\ ~m.cfg.eaccept /\ cs \in m.early
+\* forget everything about the directions of stream sid of connection c (its id is reused after a rejection)
+Purge(f, c, sid) == [x \in {y \in DOMAIN f : ~(y[1] = c /\ y[2] = sid)} |-> f[x]]
+PurgeSet(S, c, sid) == {y \in S : ~(y[1] = c /\ y[2] = sid)}
+
 ReadOps == {"read", "read_chunk", "read_chunks", "read_to_end"}
 WriteOps == {"write", "write_all", "write_chunks"}
 OpenOps == {"open_uni", "open_bi"}
 AcceptOps == {"accept_uni", "accept_bi"}
 OpDir(op) == IF op \in {"open_uni", "accept_uni"} THEN 1 ELSE 0
 
-Empty == [cfg |-> [lossless |-> TRUE, ordered |-> TRUE, dup |-> FALSE, idle |-> FALSE, maxuni |-> 0, maxbi |-> 0, sendwin |-> 0],
+Empty == [cfg |-> [lossless |-> TRUE, ordered |-> TRUE, dup |-> FALSE, idle |-> FALSE, maxuni |-> 0, maxbi |-> 0, sendwin |-> 0,
+                  ticket |-> FALSE, eaccept |-> FALSE],
           clones |-> <<>>, selfw |-> {}, kinds |-> <<>>, pend |-> <<>>, held |-> <<>>,
           wlo |-> <<>>, whi |-> <<>>, fin |-> {}, rst |-> {}, stp |-> <<>>, cursor |-> <<>>,
           rend |-> {}, rdirty |-> {}, opened |-> <<>>, accepted |-> <<>>, used |-> {},
-          closedBy |-> <<>>, syncClosed |-> {}, lostSeen |-> {}, conns |-> {}, epClosed |-> {}, refused |-> {},
+          closedBy |-> <<>>, syncClosed |-> {}, lostSeen |-> {}, early |-> {}, sgone |-> {}, finEff |-> {}, conns |-> {}, epClosed |-> {}, refused |-> {},
           dsent |-> <<>>, drecv |-> <<>>, phase |-> "run"]
 
 TInit == l = 1 /\ bad = {} /\ cur = <<0>> /\ m = Empty
 
 Reset == /\ Is("Reset")
          /\ m' = [Empty EXCEPT !.cfg = [lossless |-> e.lossless, ordered |-> e.ordered, dup |-> e.dup, idle |-> e.idle,
-                                        maxuni |-> e.maxuni, maxbi |-> e.maxbi, sendwin |-> e.sendwin]]
+                                        maxuni |-> e.maxuni, maxbi |-> e.maxbi, sendwin |-> e.sendwin,
+                                        ticket |-> e.ticket, eaccept |-> e.eaccept]]
          /\ cur' = <<e.run>> /\ bad' = bad /\ l' = l + 1
 
 \* ---------------------------------------------------------------------------
@@ -178,7 +186,11 @@ OpDone ==
          dw == <<c, e.sid, s>>            \* direction written by this side
          dr == <<c, e.sid, 1 - s>>        \* direction read by this side
          lost == e.lost
-         errflags == IF e.res = "err" /\ lost THEN Flag(Justified(c, s, e.err, e.ecode), "UnjustifiedError") ELSE {}
+         errflags == IF e.res = "err" /\ lost THEN Flag(Justified(c, s, e.err, e.ecode), "UnjustifiedError")
+                     \* ZeroRttRejected: only on a stream opened early, only when the server refused early data
+                     ELSE IF e.res = "err" /\ e.err = "ZeroRttRejected" THEN Flag(Rejected0(<<c, e.sid>>), "UnjustifiedError")
+                     ELSE {}
+         zr == e.res = "err" /\ e.err = "ZeroRttRejected"
          m1 == [m EXCEPT !.pend = Del(@, e.task),
                          !.lostSeen = IF e.res = "err" /\ lost THEN @ \cup {<<c, s>>} ELSE @]
      IN
@@ -197,12 +209,26 @@ OpDone ==
                                     "WaitIdleEarly")
             /\ m' = m1
        [] e.op \in OpenOps ->
-            LET k == <<c, s, OpDir(e.op)>> IN
+            LET k == <<c, s, OpDir(e.op)>>
+                \* after a rejected 0-RTT attempt the stream ids handed out early are reused: e.n = 1 marks an
+                \* early open (the harness probes Connection::authenticated() in the same poll)
+                reuse == e.res = "ok" /\ e.n = 0 /\ Rejected0(<<c, e.sid>>) IN
             /\ bad' = bad \cup errflags \cup
-                 (IF e.res = "ok" THEN Flag(Initiator(e.sid) = s /\ Dir(e.sid) = OpDir(e.op)
-                                            /\ Index(e.sid) = At(m.opened, k, 0), "OpenOrder") ELSE {})
-            /\ m' = IF e.res = "ok"
+                 (IF e.res = "ok" /\ ~reuse
+                    THEN Flag(Initiator(e.sid) = s /\ Dir(e.sid) = OpDir(e.op)
+                              /\ Index(e.sid) = At(m.opened, k, 0), "OpenOrder") ELSE {})
+            /\ m' = IF reuse
+                      THEN [m1 EXCEPT !.opened = Set(@, k, Index(e.sid) + 1),
+                                      !.early = {x \in @ : ~(x[1] = c /\ Dir(x[2]) = OpDir(e.op) /\ Index(x[2]) >= Index(e.sid))},
+                                      !.wlo = Purge(@, c, e.sid), !.whi = Purge(@, c, e.sid), !.cursor = Purge(@, c, e.sid),
+                                      !.stp = Purge(@, c, e.sid), !.fin = PurgeSet(@, c, e.sid), !.rst = PurgeSet(@, c, e.sid),
+                                      !.rend = PurgeSet(@, c, e.sid), !.rdirty = PurgeSet(@, c, e.sid),
+                                      !.sgone = PurgeSet(@, c, e.sid), !.finEff = PurgeSet(@, c, e.sid),
+                                      !.used = {x \in @ : x # <<c, e.sid>>},
+                                      !.held = Set(@, e.task, At(@, e.task, 0) + (IF e.op = "open_bi" THEN 2 ELSE 1))]
+                    ELSE IF e.res = "ok"
                       THEN [m1 EXCEPT !.opened = Set(@, k, At(@, k, 0) + 1),
+                                      !.early = IF e.n = 1 THEN @ \cup {<<c, e.sid>>} ELSE @,
                                       !.held = Set(@, e.task, At(@, e.task, 0) + (IF e.op = "open_bi" THEN 2 ELSE 1))]
                       ELSE m1
        [] e.op \in AcceptOps ->
@@ -220,7 +246,7 @@ OpDone ==
             /\ bad' = bad \cup errflags \cup
                  (IF e.res = "ok"
                     THEN Flag(e.n >= 1 /\ e.n <= p.n /\ e.off = At(m.wlo, dw, 0), "WriteResult")
-                  ELSE IF lost THEN {}
+                  ELSE IF lost \/ zr THEN {}
                   ELSE IF e.err = "ClosedStream" THEN Flag(dw \in m.fin \cup m.rst, "UnjustifiedError")
                   ELSE Flag(e.err = "Stopped" /\ dw \in DOMAIN m.stp /\ m.stp[dw] = e.ecode, "StoppedWithoutStop"))
             /\ m' = IF e.res = "ok"
@@ -253,13 +279,13 @@ OpDone ==
                          THEN Flag(dr \in m.fin, "FinWithoutFinish")
                               \cup Flag(end >= At(m.wlo, dr, 0), "DataLostAtFin")
                        ELSE {})
-                 \cup (IF e.res = "err" /\ ~lost /\ ~skip
+                 \cup (IF e.res = "err" /\ ~lost /\ ~skip /\ ~zr
                          THEN (IF e.err = "ClosedStream" THEN Flag(dr \in DOMAIN m.stp, "UnjustifiedError")
                                ELSE IF e.err = "TooLong" THEN {}
                                ELSE Flag(e.err = "Reset" /\ dr \in m.rst, "ResetWithoutReset"))
                        ELSE {})
             /\ m' = [m1 EXCEPT !.cursor = IF skip THEN @ ELSE Set(@, dr, end),
-                               !.rend = IF isEnd \/ (e.res = "err" /\ ~lost /\ e.err # "ClosedStream" /\ e.err # "TooLong")
+                               !.rend = IF isEnd \/ (e.res = "err" /\ ~lost /\ ~zr /\ e.err # "ClosedStream" /\ e.err # "TooLong")
                                           THEN @ \cup {dr} ELSE @,
                                !.rdirty = IF e.res = "err" /\ e.op = "read_to_end" THEN @ \cup {dr} ELSE @]
        [] e.op = "read_dgram" ->
@@ -283,8 +309,14 @@ Sync ==
          s == e.side
          dw == <<c, e.sid, s>>
          dr == <<c, e.sid, 1 - s>> IN
-     CASE e.op = "finish" ->
-            /\ m' = IF e.res = "ok" THEN [m EXCEPT !.fin = @ \cup {dw}, !.used = @ \cup {<<c, e.sid>>}] ELSE m
+     CASE e.op = "connect_0rtt" ->
+            /\ m' = IF e.res = "ok" THEN [m EXCEPT !.conns = @ \cup {<<c, 1>>}] ELSE m
+            /\ bad' = bad \cup Flag(e.res # "ok" \/ m.cfg.ticket, "EarlyWithoutTicket")
+       [] e.op = "finish" ->
+            \* SendStream::finish() is a silent no-op once the peer's STOP_SENDING has arrived; it certainly took
+            \* effect (finEff) when the peer had not even called stop() yet
+            /\ m' = IF e.res = "ok" THEN [m EXCEPT !.fin = @ \cup {dw}, !.used = @ \cup {<<c, e.sid>>},
+                                                   !.finEff = IF dw \in DOMAIN m.stp THEN @ ELSE @ \cup {dw}] ELSE m
             /\ bad' = bad
        [] e.op = "reset" ->
             /\ m' = IF e.res = "ok" THEN [m EXCEPT !.rst = @ \cup {dw}, !.used = @ \cup {<<c, e.sid>>}] ELSE m
@@ -329,6 +361,7 @@ HandleDropped ==
          \* implicit close(0) when the last handle of a connection goes away (ConnectionRef::drop)
          m0 == [m EXCEPT !.fin = IF e.kind = "send" /\ dw \notin @ \cup m.rst THEN @ \cup {dw} ELSE @,
                          !.used = IF e.kind = "send" THEN @ \cup {<<c, e.sid>>} ELSE @,
+                         !.sgone = IF e.kind = "send" THEN @ \cup {dw} ELSE @,
                          !.stp = IF e.kind = "recv" /\ dr \notin m.rend /\ dr \notin DOMAIN @ THEN Set(@, dr, 0) ELSE @,
                          !.held = IF e.task >= 0 THEN Set(@, e.task, h) ELSE @]
          m1 == IF e.kind \in {"send", "recv", "conn", "connecting"} /\ e.left = 0 THEN CloseSync(m0, c, s, 0) ELSE m0
@@ -358,11 +391,21 @@ PendRead(d) == \E t \in DOMAIN m.pend : m.pend[t].op \in ReadOps /\ <<m.pend[t].
 PendWrite(d) == \E t \in DOMAIN m.pend : m.pend[t].op \in WriteOps /\ <<m.pend[t].c, m.pend[t].sid, m.pend[t].side>> = d
 
 \* every stream this side opened in direction class dir has run its full course (so the peer issued new credit)
+\* The writer of direction d ended it for good: an explicit reset(), a finish() that certainly took effect, or
+\* the drop of its SendStream ("dropping the last handle to a stream implicitly finishes it", and resets it
+\* when the peer has stopped it).  At a final quiescent point the FIN / RESET_STREAM has been delivered and
+\* acknowledged.
+WriterEnded(d) == d \in m.sgone \/ d \in m.rst \/ d \in m.finEff
+\* The reading side of direction d has disposed of the stream: its application saw the end (fin or reset), or
+\* it stopped the stream (explicitly or by dropping the RecvStream) and the writer ended it
+RecvRetired(d) == d \in m.rend \/ (d \in DOMAIN m.stp /\ WriterEnded(d))
 AllClosed(c, s, dir) ==
   \A i \in 0..(At(m.opened, <<c, s, dir>>, 0) - 1) :
      LET sid == SidOf(s, dir, i) IN
-     /\ <<c, sid, s>> \in m.rend
-     /\ dir = 1 \/ <<c, sid, 1 - s>> \in m.rend
+     /\ ~Rejected0(<<c, sid>>)
+     /\ RecvRetired(<<c, sid, s>>)
+     \* bidirectional: the peer's sending half is freed once it has ended and everything is acknowledged
+     /\ dir = 1 \/ <<c, sid, 1 - s>> \in m.rend \/ WriterEnded(<<c, sid, 1 - s>>)
 
 \* bytes handed to write() by side s of connection c
 RECURSIVE SumOver(_, _)
@@ -389,7 +432,7 @@ DataCond(p) ==
          ELSE PendRead(dw)
                 \/ (dw \notin m.rdirty /\ At(m.cursor, dw, 0) = At(m.whi, dw, 0) /\ At(m.wlo, dw, 0) = At(m.whi, dw, 0))
     [] p.op \in AcceptOps ->
-         \E u \in m.used : u[1] = c /\ Initiator(u[2]) = 1 - s /\ Dir(u[2]) = OpDir(p.op)
+         \E u \in m.used : u[1] = c /\ Initiator(u[2]) = 1 - s /\ Dir(u[2]) = OpDir(p.op) /\ ~Rejected0(u)
                            /\ Index(u[2]) >= At(m.accepted, <<c, s, OpDir(p.op)>>, 0)
     [] p.op \in OpenOps ->
          (IF p.op = "open_uni" THEN m.cfg.maxuni ELSE m.cfg.maxbi) > 0 /\ AllClosed(c, s, OpDir(p.op))
@@ -411,6 +454,8 @@ Enabled(p) ==
   ELSE \/ m.cfg.idle                                   \* every connection has timed out or closed by now
        \/ Closed(p.c, p.side) \/ <<p.c, p.side>> \in m.lostSeen
        \/ (Closed(p.c, 1 - p.side) /\ m.cfg.lossless)   \* the peer's CONNECTION_CLOSE was delivered
+       \* the handshake is over by now: operations on streams of a rejected 0-RTT attempt fail with ZeroRttRejected
+       \/ (p.op \in ReadOps \cup WriteOps \cup {"stopped"} /\ Rejected0(<<p.c, p.sid>>))
        \/ (Alive(p.c) /\ DataCond(p))
 
 \* KNOWN FINDING (C18): a stopped() future that is pending when the peer acknowledges a local reset() is never
